@@ -185,7 +185,8 @@ func genTxs(r *lib.RNG, n int, seq *txSeq, diff func() DiffSpec) []TxSpec {
 		if r.Chance(1, 12) {
 			rh = lib.Pick(r, uniHashes) // receipt carrying another hash than its transaction
 		}
-		out[i] = TxSpec{Hash: h, Tag: seq.next, RHash: rh, RTag: 5000 + seq.next, Events: r.Intn(3), Diff: diff()}
+		out[i] = TxSpec{Hash: h, Tag: seq.next, RHash: rh, RTag: 5000 + seq.next, Events: r.Intn(3), Diff: diff(),
+			Kind: r.Intn(4), Reverted: r.Chance(1, 3)}
 	}
 	return out
 }
